@@ -65,13 +65,15 @@ ModeOf(fd) == (CHOOSE p \in open : p[1] = fd)[2]
    Bits 1 and 2 claim that the file system was changed: they cannot be documented outcomes of a read-only run.
    The other tools have no EXIT section in their manual pages; the table transcribes their exit() calls:
    0 success / 1 failure (debugfs -R: number of failed requests = 0 or 1; debugfs -f: number of failed requests
-   of the script, the harness uses scripts of at most MaxScript requests).                                     *)
+   of the script, the harness uses scripts of at most MaxScript requests; dumpe2fs: `return retval` with the
+   library error code, or 2 for -m without MMP, so any status can be seen on a damaged image).               *)
 HasBit(c, b) == (c \div b) % 2 = 1
 FsckCodes    == {c \in 0..255 : ~HasBit(c, 64)}
 FsckRoCodes  == {c \in FsckCodes : ~HasBit(c, 1) /\ ~HasBit(c, 2)}
 MaxScript    == 16
 DocExit(t, cl) == CASE t = "e2fsck"         -> IF cl = "ro" THEN FsckRoCodes ELSE FsckCodes
                     [] t = "debugfs_script" -> 0..MaxScript
+                    [] t = "dumpe2fs"       -> 0..255      \* main() returns the errcode_t of the failure: its low byte
                     [] OTHER                -> {0, 1}
 
 -----------------------------------------------------------------------------
